@@ -56,24 +56,13 @@ let read_out r s a o nb : out =
 let kinds_bel = ["dense"; "sparse"; "generic"]
 let kinds_reset = ["dense"; "dense-m"; "dense-c"; "sparse"; "sparse-m"; "sparse-d"; "sparse-c"; "generic"]
 
-let judge _id (c : cursor) (r : cursor) : bool * string =
-  let kind = next c in
-  let kinds = (match kind with "bel" -> kinds_bel | "reset" -> kinds_reset | _ -> failwith ("unknown case kind " ^ kind)) in
-  let regime = next c in
-  let exact = (regime = "dy") in
-  let s = next_int c in let a = next_int c in let o = next_int c in
-  let read_tables () =
-    let tT = read_n c a (fun c -> read_n c s (fun c -> read_n c s next_q)) in
-    let tO = read_n c a (fun c -> read_n c s (fun c -> read_n c o next_q)) in
-    let tR = read_n c s (fun c -> read_n c a (fun c -> read_n c s next_q)) in
-    (tT, tO, tR) in
-  (* "reset": the first tables only pre-load the models; the ground truth is what was supplied last *)
-  if kind = "reset" then ignore (read_tables ());
-  let (tT, tO, tR) = read_tables () in
-  let nb = next_int c in
-  let beliefs = read_n c nb (fun c -> read_n c s next_q) in
-  let m = mk_pomdp (n s) (n a) (n o) tT tO tR (q_of_ints 1 2) in
-  let g = table_model (n s) (n a) (n o) tT tO tR in
+(* Judges one set of outputs (one "ok …"/"throw …" block per model variant in [kinds]) against the POMDP
+   [m] (ground truth tables), the query model [g] (for the "generic" variant and the reward spec) and the
+   observation table [tO].  Oracle first, then correspondence.  Returns (zero-probability observation seen,
+   positive seen, tiny positive seen). *)
+let judge_state ~(exact : bool) ~(s : int) ~(a : int) ~(o : int) ~(beliefs : q list list)
+    ~(m : pomdp) ~(g : qmodel) ~(tO : q list list list) ~(kinds : string list) ~(const_seen : bool ref) (r : cursor) : bool * bool * bool =
+  let nb = List.length beliefs in
   let gq = queries_of m in
   (* a variant whose construction from the (valid) supplied tables threw has no outputs; it is reported
      after the oracle has looked at the variants that could be built *)
@@ -84,7 +73,6 @@ let judge _id (c : cursor) (r : cursor) : bool * string =
       | "throw" -> let e = next r in thrown := (k, e) :: !thrown; []
       | "THROW" -> oracle_fail "paths_agree" ("construct<" ^ k ^ ">") ("exception escaped the harness: " ^ next r)
       | t -> failwith ("unexpected token in implementation output: " ^ t)) kinds in
-  if not (at_end r) then failwith "trailing tokens in implementation output";
   let kinds = List.map fst outs in
   if not (List.mem "dense" kinds) then
     oracle_fail "paths_agree" "construct<dense>" "the dense model could not be built from valid tables";
@@ -181,6 +169,17 @@ let judge _id (c : cursor) (r : cursor) : bool * string =
                   check_norm "normalised_is_posterior" (site "updateBelief" k) po.nm;
                   check_norm "normalised_is_posterior" (site "updateBeliefPartialNormalized" k) po.pnm;
                   check_norm "normalised_is_posterior" (site "updateBeliefPartialNormalized(value)" k) po.pnv;
+                  (* boundary: exactly constant observation column c > 0 => P(o|b,a) = c and posterior = prediction *)
+                  (if exact then match List.map (fun row -> List.nth row oi) (List.nth tO ai) with
+                     | c0 :: rest when q_lt q_zero c0 && List.for_all (q_eq c0) rest ->
+                       const_seen := true;
+                       let st = site "updateBelief" k in
+                       if not (q_eq pr c0) then failwith "spec inconsistency: constant column but P(o|b,a) <> c";
+                       let p = List.map (fin "uninformative_observation" st) po.nm in
+                       if not (close_l p pred) then
+                         oracle_fail "uninformative_observation" st
+                           (Printf.sprintf "b#%d a=%d o=%d: posterior [%s] but observation is uninformative, prediction [%s]" bi ai oi (str_qs p) (str_qs pred))
+                     | _ -> ());
                   un) pa.os in
               (* sum over observations of the unnormalised updates is the prediction *)
               let stu = site "updateBeliefUnnormalized" k in
@@ -264,9 +263,159 @@ let judge _id (c : cursor) (r : cursor) : bool * string =
     List.iteri (fun bi b -> List.iter (fun ai -> List.iter (fun oi ->
         if not (veqb (unnormQ gq b (n ai) (n oi)) (md_un (true, bi, ai, oi))) then
           disagree "paths_agree" "model" "unnormQ (queries_of m) differs from unnormE m") so_range) sa_range) beliefs;
-  let nontrivial = s >= 3 in
-  let tag = Printf.sprintf "%s%s-S%d%s%s%s" (if kind = "reset" then "reset-" else "") regime s
-      (if !zero_seen then "-z" else "") (if !tiny_seen then "-t" else "") (if !pos_seen then "" else "-nopos") in
-  (nontrivial, tag)
+  (!zero_seen, !pos_seen, !tiny_seen)
+
+let mk_state (s : int) (a : int) (o : int) tT tO (tR2 : q list list) : pomdp =
+  { pm = { nS = n s; nA = n a; p = tT; r = tR2; gam = q_of_ints 1 2 }; nO = n o; ob = tO }
+
+(* spec-level classification of a table offered to a validating setter, independent of the model's
+   validator: valid = no negative entry and every row sums to 1 within 1e-9; invalid = a negative entry or a
+   row sum off by at least 1e-4 (the library's tolerance is 1e-6); anything else is a generator bug *)
+let classify_table (t : q list list list) : bool =
+  let tiny = q_of_ints 1 1000000000 and big = q_of_ints 1 10000 in
+  let row_valid r = List.for_all (fun x -> q_le q_zero x) r && q_le (q_abs (q_sub (qsum_l r) q_one)) tiny in
+  let row_invalid r = List.exists (fun x -> q_lt x q_zero) r || q_le big (q_abs (q_sub (qsum_l r) q_one)) in
+  let rows = List.concat t in
+  if List.for_all row_valid rows then true
+  else if List.exists row_invalid rows then false
+  else failwith "generator bug: table neither clearly valid nor clearly invalid"
+
+let tables_eq (x : q list list list) (y : q list list list) =
+  List.length x = List.length y && List.for_all2 (fun m1 m2 -> List.length m1 = List.length m2 && List.for_all2 veqb m1 m2) x y
+
+let judge _id (c : cursor) (r : cursor) : bool * string =
+  let kind = next c in
+  let regime = next c in
+  let exact = (regime = "dy") in
+  let s = next_int c in let a = next_int c in let o = next_int c in
+  let read_tables () =
+    let tT = read_n c a (fun c -> read_n c s (fun c -> read_n c s next_q)) in
+    let tO = read_n c a (fun c -> read_n c s (fun c -> read_n c o next_q)) in
+    let tR = read_n c s (fun c -> read_n c a (fun c -> read_n c s next_q)) in
+    (tT, tO, tR) in
+  let const_seen = ref false in
+  let finish prefix (z, p, t) =
+    if not (at_end r) then failwith "trailing tokens in implementation output";
+    let tag = Printf.sprintf "%s%s-S%d%s%s%s%s" prefix regime s
+        (if z then "-z" else "") (if t then "-t" else "") (if !const_seen then "-c" else "") (if p then "" else "-nopos") in
+    (s >= 3, tag) in
+  match kind with
+  | "bel" | "reset" ->
+    let kinds = if kind = "bel" then kinds_bel else kinds_reset in
+    (* "reset": the first tables only pre-load the models; the ground truth is what was supplied last *)
+    if kind = "reset" then ignore (read_tables ());
+    let (tT, tO, tR) = read_tables () in
+    let nb = next_int c in
+    let beliefs = read_n c nb (fun c -> read_n c s next_q) in
+    let m = mk_pomdp (n s) (n a) (n o) tT tO tR (q_of_ints 1 2) in
+    let g = table_model (n s) (n a) (n o) tT tO tR in
+    finish (if kind = "reset" then "reset-" else "") (judge_state ~exact ~s ~a ~o ~beliefs ~m ~g ~tO ~kinds ~const_seen r)
+  | "hist" ->
+    (* operation history on one dense and one sparse model object; after construction and after every
+       setter call the belief updates must be the Bayes filter of the tables of the last ACCEPTED calls *)
+    let (tT0, tO0, tR0) = read_tables () in
+    let nops = next_int c in
+    let ops = read_n c nops (fun c ->
+        let name = next c in let ovl = next c in
+        match name with
+        | "obs" -> (name, ovl, OpSetObs (read_n c a (fun c -> read_n c s (fun c -> read_n c o next_q))))
+        | "tr" -> (name, ovl, OpSetT (read_n c a (fun c -> read_n c s (fun c -> read_n c s next_q))))
+        | "rw3" -> (name, ovl, OpSetR3 (read_n c s (fun c -> read_n c a (fun c -> read_n c s next_q))))
+        | "rw2" -> (name, ovl, OpSetR2 (read_n c s (fun c -> read_n c a next_q)))
+        | t -> failwith ("unknown op " ^ t)) in
+    let nb = next_int c in
+    let beliefs = read_n c nb (fun c -> read_n c s next_q) in
+    let kinds = ["dense"; "sparse"] in
+    let m0 = mk_pomdp (n s) (n a) (n o) tT0 tO0 tR0 (q_of_ints 1 2) in
+    let flags = ref (false, false, false) in
+    let merge (z, p, t) = let (z0, p0, t0) = !flags in flags := (z0 || z, p0 || p, t0 || t) in
+    let snapshot ctx (st : pomdp) =
+      (try merge (judge_state ~exact ~s ~a ~o ~beliefs ~m:st ~g:(queries_of st) ~tO:st.ob ~kinds ~const_seen r)
+       with
+       | OracleFail (cl, si, d) -> raise (OracleFail (cl, si, ctx ^ ": " ^ d))
+       | Disagreement (cl, si, d) -> raise (Disagreement (cl, si, ctx ^ ": " ^ d))) in
+    snapshot "after construction" m0;
+    let rejected_seen = ref false in
+    let _ = List.fold_left (fun (k, (st_or : pomdp), (st_md : pomdp)) (name, ovl, op) ->
+        let setter = (match name with "obs" -> "setObservationFunction" | "tr" -> "setTransitionFunction" | _ -> "setRewardFunction")
+                     ^ (if ovl = "m" then "(matrix)" else "(container)") in
+        let ctx = Printf.sprintf "after op #%d %s" k setter in
+        (* oracle state: decided from the offered table alone *)
+        let expect_acc, st_or' = (match op with
+            | OpSetObs t -> let v = classify_table t in
+              if exact && v <> exact_tableb (n a) (n s) (n o) t then failwith "generator bug: dyadic table validity";
+              (v, if v then mk_state s a o st_or.pm.p t st_or.pm.r else st_or)
+            | OpSetT t -> let v = classify_table t in
+              if exact && v <> exact_tableb (n a) (n s) (n s) t then failwith "generator bug: dyadic table validity";
+              (v, if v then mk_state s a o t st_or.ob st_or.pm.r else st_or)
+            | OpSetR3 r3 -> (true, mk_state s a o st_or.pm.p st_or.ob (fold_rewards (n s) (n a) st_or.pm.p r3))
+            | OpSetR2 r2 -> (true, mk_state s a o st_or.pm.p st_or.ob r2)) in
+        if not expect_acc then rejected_seen := true;
+        let impl_flags = List.map (fun k' -> (k', next r)) kinds in
+        List.iter (fun (k', f) ->
+            let acc = (match f with "acc" -> true | "rej" -> false | t -> failwith ("unexpected setter status " ^ t)) in
+            if acc <> expect_acc then
+              oracle_fail "setter_validate_then_commit" (setter ^ "<" ^ k' ^ ">")
+                (Printf.sprintf "op #%d: %s table was %s" k (if expect_acc then "a valid" else "an invalid") (if acc then "accepted" else "rejected")))
+          impl_flags;
+        (* the Coq state machine agrees on the decision and on the resulting tables *)
+        let (st_md', acc_md) = step st_md op in
+        if acc_md <> expect_acc then disagree "step" setter (Printf.sprintf "op #%d: model step %s" k (if acc_md then "accepts" else "rejects"));
+        if not (tables_eq st_md'.pm.p st_or'.pm.p && tables_eq st_md'.ob st_or'.ob && tables_eq [st_md'.pm.r] [st_or'.pm.r]) then
+          disagree "step" setter (Printf.sprintf "op #%d: model state differs from the tables of the last accepted calls" k);
+        snapshot ctx st_or';
+        (k + 1, st_or', st_md')) (1, m0, m0) ops in
+    finish (if !rejected_seen then "hist-rej-" else "hist-") !flags
+  | "seq" ->
+    (* filtering along a history: after k steps the belief must be the composed unnormalised filter
+       tau_hist divided by its sum P(o_1..o_k | b, a_1..a_k), as long as that probability is positive *)
+    let (tT, tO, tR) = read_tables () in
+    let b0 = read_n c s next_q in
+    let len = next_int c in
+    let h = read_n c len (fun c -> let ai = next_int c in let oi = next_int c in (ai, oi)) in
+    let m = mk_pomdp (n s) (n a) (n o) tT tO tR (q_of_ints 1 2) in
+    let g = table_model (n s) (n a) (n o) tT tO tR in
+    if exact && not (wf_pomdpb m) then failwith "generator bug: dyadic case is not a well-formed POMDP";
+    let hn = List.map (fun (ai, oi) -> (n ai, n oi)) h in
+    let rec prefixes acc pre = function [] -> List.rev acc | x :: t -> let pre' = pre @ [x] in prefixes (pre' :: acc) pre' t in
+    let pres = prefixes [] [] hn in
+    let specs = List.map (fun pre -> let tau = tau_hist_r m b0 pre in (tau, vio_qred (qsum_l tau))) pres in
+    let kinds = ["dense"; "sparse"; "generic"] in
+    let outs = List.map (fun k ->
+        (match next r with "ok" -> () | "THROW" -> oracle_fail "paths_agree" ("construct<" ^ k ^ ">") ("exception: " ^ next r) | t -> failwith ("unexpected token " ^ t));
+        (k, read_n r len (fun r -> read_n r s next_x))) kinds in
+    let dead = ref false and zero_hit = ref false in
+    (* O *)
+    List.iter (fun (k, traj) ->
+        let st = "updateBelief*" ^ "<" ^ k ^ ">" in
+        List.iteri (fun i (impl, (tau, pr)) ->
+            if q_lt q_zero pr then begin
+              let p = List.map (fin "history_filter" st) impl in
+              if not (check_nonneg p) then oracle_fail "history_filter" st (Printf.sprintf "step %d: negative entry [%s]" (i + 1) (str_qs p));
+              if not (fclose (qsum_l p) q_one) then oracle_fail "history_filter" st (Printf.sprintf "step %d: belief sums to %s" (i + 1) (string_of_q (qsum_l p)));
+              List.iteri (fun j pj ->
+                  let want = vio_qdiv (List.nth tau j) pr in
+                  if not (fclose pj want) then
+                    oracle_fail "history_filter" st (Printf.sprintf "step %d: belief[%d] = %s, filter/P(history) = %s" (i + 1) j (string_of_q pj) (string_of_q want))) p
+            end) (List.combine traj specs)) outs;
+    (* C: the iterated model; after the first zero-probability step the model has no value and the
+       implementation has NaN everywhere *)
+    List.iter (fun (k, traj) ->
+        let eig = (k <> "generic") in
+        dead := false;
+        List.iteri (fun i (impl, pre) ->
+            if not !dead then begin
+              match (if eig then updateE_hist m b0 pre else updateQ_hist g b0 pre) with
+              | Some p ->
+                let ok = List.length impl = List.length p && List.for_all2 (fun x y -> match x with Fin v -> fclose v y | _ -> false) impl p in
+                if not ok then disagree "history_filter" ("updateBelief*<" ^ k ^ ">") (Printf.sprintf "step %d: impl [%s] model [%s]" (i + 1) (show_xs impl) (str_qs p))
+              | None ->
+                dead := true; zero_hit := true;
+                if not (List.for_all (function NaN -> true | _ -> false) impl) then
+                  disagree "history_filter" ("updateBelief*<" ^ k ^ ">") (Printf.sprintf "step %d: zero-probability observation, impl [%s] model NaN" (i + 1) (show_xs impl))
+            end) (List.combine traj pres)) outs;
+    if not (at_end r) then failwith "trailing tokens in implementation output";
+    (s >= 3, Printf.sprintf "seq-%s-S%d-L%d%s" regime s len (if !zero_hit then "-z" else ""))
+  | k -> failwith ("unknown case kind " ^ k)
 
 let () = main_loop judge
